@@ -254,7 +254,8 @@ class TWorld:
 
         def run():
             try:
-                c.result = getattr(self.server, name)(*args)
+                r = getattr(self.server, name)(*args)
+                c.result = dict(r) if isinstance(r, dict) else r     # value at return time
             except vsched.VThreadKilled:
                 raise
             except BaseException as e:   # noqa
